@@ -345,8 +345,11 @@ impl VerifBox for KeepAliveBox {
                 }
             }
             ["subopen", c, sid] => {
-                let (Some(c), Some(sid)) = (n(c), n(sid)) else { return "bad-op".into() };
+                let Some(c) = n(c) else { return "bad-op".into() };
                 let Some(task) = self.tasks.get_mut(&c) else { return "unknown".into() };
+                // `*` = the lowest substream id under negotiation
+                let sid = if *sid == "*" { task.nego.keys().min().copied() } else { n(sid) };
+                let Some(sid) = sid else { return "unknown".into() };
                 let Some((protocol, opening_permit, keep_alive)) = task.nego.remove(&sid) else {
                     return "unknown".into();
                 };
@@ -362,11 +365,13 @@ impl VerifBox for KeepAliveBox {
                     substream,
                     opening_permit,
                 ));
-                if res.is_ok() { "ok".into() } else { "report-failed".into() }
+                if res.is_ok() { format!("ok {sid}") } else { "report-failed".into() }
             }
             ["subfail", c, sid] => {
-                let (Some(c), Some(sid)) = (n(c), n(sid)) else { return "bad-op".into() };
+                let Some(c) = n(c) else { return "bad-op".into() };
                 let Some(task) = self.tasks.get_mut(&c) else { return "unknown".into() };
+                let sid = if *sid == "*" { task.nego.keys().min().copied() } else { n(sid) };
+                let Some(sid) = sid else { return "unknown".into() };
                 let Some((protocol, permit, _)) = task.nego.remove(&sid) else {
                     return "unknown".into();
                 };
@@ -376,7 +381,7 @@ impl VerifBox for KeepAliveBox {
                     SubstreamId::from(sid),
                     SubstreamError::ConnectionClosed,
                 ));
-                if res.is_ok() { "ok".into() } else { "report-failed".into() }
+                if res.is_ok() { format!("ok {sid}") } else { "report-failed".into() }
             }
             ["subin", c, i] => {
                 let (Some(c), Some(i)) = (n(c), n(i)) else { return "bad-op".into() };
